@@ -831,3 +831,193 @@ pub fn c09(a: &Analysis, v: &mut Verdict) {
     // trigger: a Full push or a limit hit, followed by a later delivered record (recovery)
     v.trigger = a.any_full || m.scope_limit_hits > 0 || m.stack_limit_hits > 0;
 }
+
+// ---------------------------------------------------------------------------------------------
+// C15: #[trace] changes nothing but adds exactly one span per call (fixed corpus, see corpus.rs)
+
+fn strip_closure(p: &str) -> String {
+    p.strip_suffix("::{{closure}}").unwrap_or(p).to_string()
+}
+
+fn exp_name(e: &crate::corpus::ExpSpan, traced: &crate::corpus::Outcome) -> Option<String> {
+    match &e.name {
+        crate::corpus::NameRule::Fixed(n) => Some(n.to_string()),
+        crate::corpus::NameRule::BodyPath => traced.body_path.as_ref().map(|p| if e.is_async { strip_closure(p) } else { p.clone() }),
+    }
+}
+
+fn is_twin_record(r: &Rec) -> bool {
+    parse_node(&r.name, 'n').is_none() && !r.name.starts_with('x')
+}
+
+pub fn c15(a: &Analysis, v: &mut Verdict) {
+    let m = a.model;
+    let mut async_pending = 0u64;
+    let mut unwinding = 0u64;
+    // all delivered twin records
+    let twin_recs: Vec<&Rec> = a.hist.batches.iter().flat_map(|b| b.recs.iter()).filter(|r| is_twin_record(r)).collect();
+    let mut used = vec![false; twin_recs.len()];
+    let last_flush = a.case.ops.iter().enumerate().filter(|(f, r)| matches!(r.op, Op::Flush) && a.op_executed(*f)).map(|(f, _)| f).last();
+    for (op, items) in &m.twin_calls {
+        let o = outer(*op);
+        if !a.op_executed(o) {
+            continue;
+        }
+        let (f, arg) = match a.case.ops[o].op {
+            Op::Twin { f, arg, .. } => (f, arg),
+            _ => continue,
+        };
+        let tr = match &a.hist.ops[o].ret {
+            Ret::Twin(t) => t,
+            _ => {
+                if let Some(p) = &a.hist.ops[o].panic {
+                    v.add("C15", "C15.differential", "harness-panic".into(), format!("twin {} escaped with a panic: {}", f, p));
+                }
+                continue;
+            }
+        };
+        // ---- differential: same value, same side effects in the same order, same unwinding
+        if tr.plain.ret != tr.traced.ret {
+            let kind = match (&tr.plain.ret, &tr.traced.ret) {
+                (Ok(_), Ok(_)) => "return-value",
+                (Err(_), Err(_)) => "panic-payload",
+                _ => "panics-differently",
+            };
+            v.add("C15", "C15.differential", format!("twin{}:{}", f, kind), format!("twin {} arg {}: plain -> {:?}, #[trace] -> {:?}", f, arg, tr.plain.ret, tr.traced.ret));
+        }
+        if tr.plain.log != tr.traced.log {
+            v.add(
+                "C15",
+                "C15.differential",
+                format!("twin{}:side-effects", f),
+                format!("twin {} arg {}: side-effect logs differ: plain {:?} vs #[trace] {:?}", f, arg, tr.plain.log, tr.traced.log),
+            );
+        }
+        if tr.plain.polls != tr.traced.polls {
+            v.add("C15", "C15.differential", format!("twin{}:polls", f), format!("twin {} arg {}: the traced future needed {} polls, the plain one {}", f, arg, tr.traced.polls, tr.plain.polls));
+        }
+        if tr.traced.polls > 1 {
+            async_pending += 1;
+        }
+        if tr.traced.ret.is_err() || tr.traced.dropped_early {
+            unwinding += 1;
+        }
+        // ---- the spans of the call
+        let e = crate::corpus::expected(f, arg);
+        let sampled_items: Vec<&Item> = items.iter().filter(|i| i.sampled).collect();
+        // inside the traced call the local parent is the span of the slot
+        match (&tr.parent_ctx, items.first()) {
+            (None, None) => {}
+            (Some(c), Some(it)) => {
+                if c.0 != m.collects[it.collect].trace_id || c.2 != it.sampled {
+                    v.add("C15", "C15.parent", "ctx".into(), format!("twin {}: the traced call saw local parent {:?}", f, c));
+                }
+            }
+            (x, y) => v.add("C15", "C15.parent", "ctx-presence".into(), format!("twin {}: local parent seen {:?}, token {:?}", f, x, y.map(|i| i.collect))),
+        }
+        let demanded = !sampled_items.is_empty()
+            && last_flush.map(|fl| a.hb.before(o, fl)).unwrap_or(false)
+            && !a.lost_submit_ops.contains(&o)
+            && !a.case.sched.ring_cap != 0;
+        for it in sampled_items {
+            let trace = m.collects[it.collect].trace_id;
+            if a.collect_ids.get(&it.collect).map(|id| a.lost_starts.contains(id)).unwrap_or(false) {
+                continue;
+            }
+            let pid = match a.parent_id(&it.parent) {
+                Some(p) => p,
+                None => continue,
+            };
+            // match the expected tree under (trace, pid)
+            match_tree(a, v, f, arg, &e, tr, trace, pid, &twin_recs, &mut used, demanded, 0);
+        }
+    }
+    // nothing else: every delivered twin record belongs to some call's expected tree
+    for (i, r) in twin_recs.iter().enumerate() {
+        if !used[i] {
+            v.add(
+                "C15",
+                "C15.exactly-one",
+                "extra-span".into(),
+                format!("a span named {:?} (trace {:032x}, parent {:016x}) was delivered that no #[trace] call under a sampled local parent accounts for", r.name, r.trace_id, r.parent_id),
+            );
+        }
+    }
+    v.probe("twin_calls", m.twin_calls.len() as u64);
+    v.probe("async_twin_with_pending", async_pending);
+    v.probe("twin_unwinding_or_dropped", unwinding);
+    v.trigger = async_pending > 0 || unwinding > 0;
+}
+
+#[allow(clippy::too_many_arguments)]
+fn match_tree(
+    a: &Analysis,
+    v: &mut Verdict,
+    f: u8,
+    arg: u32,
+    e: &crate::corpus::ExpSpan,
+    tr: &TwinRet,
+    trace: u128,
+    pid: u64,
+    recs: &[&Rec],
+    used: &mut Vec<bool>,
+    demanded: bool,
+    depth: usize,
+) {
+    let name = match exp_name(e, &tr.traced) {
+        Some(n) => n,
+        None => return, // the body never ran (dropped before the first poll): nothing to name
+    };
+    let want = if e.per_poll { tr.traced.polls as usize } else { 1 };
+    // candidates: same trace, same parent, same name
+    let mut found: Vec<usize> = vec![];
+    for (i, r) in recs.iter().enumerate() {
+        if !used[i] && r.trace_id == trace && r.parent_id == pid && r.name == name {
+            if r.props == e.props {
+                found.push(i);
+                if found.len() == want {
+                    break;
+                }
+            }
+        }
+    }
+    if found.len() < want {
+        // same place and name but other properties?
+        let near = recs.iter().enumerate().find(|(i, r)| !used[*i] && r.trace_id == trace && r.parent_id == pid && r.name == name);
+        if let Some((_, r)) = near {
+            v.add(
+                "C15",
+                "C15.properties",
+                format!("twin{}:properties", f),
+                format!("twin {} arg {}: span {:?} carries properties {:?}, expected {:?}", f, arg, name, r.props, e.props),
+            );
+            return;
+        }
+        let elsewhere = recs.iter().enumerate().any(|(i, r)| !used[i] && r.trace_id == trace && r.name == name && r.props == e.props);
+        let renamed = depth == 0 && recs.iter().enumerate().any(|(i, r)| !used[i] && r.trace_id == trace && r.parent_id == pid && r.props == e.props && r.name != name);
+        if elsewhere {
+            v.add("C15", "C15.parent", format!("twin{}:wrong-parent", f), format!("twin {} arg {}: span {:?} was delivered under another parent than the caller's local parent {:016x}", f, arg, name, pid));
+        } else if renamed {
+            v.add("C15", "C15.name", format!("twin{}:name", f), format!("twin {} arg {}: expected a span named {:?} under {:016x}, found one with another name", f, arg, name, pid));
+        } else if demanded {
+            v.add(
+                "C15",
+                "C15.exactly-one",
+                format!("twin{}:missing:{}", f, if e.per_poll { "per-poll" } else { "span" }),
+                format!("twin {} arg {}: {} span(s) named {:?} expected under {:016x} in trace {:032x}, {} delivered", f, arg, want, name, pid, trace, found.len()),
+            );
+        }
+        for &i in &found {
+            used[i] = true;
+        }
+        return;
+    }
+    for &i in &found {
+        used[i] = true;
+    }
+    // children hang under (the first instance of) this span
+    let me = recs[found[0]].span_id;
+    for c in &e.children {
+        match_tree(a, v, f, arg, c, tr, trace, me, recs, used, demanded, depth + 1);
+    }
+}
